@@ -1928,10 +1928,12 @@ class RDD:
         >>> sum(Context().parallelize([4, 9, 7, 3, 2, 5], 3).toLocalIterator())
         30
         """
-        return self.context.runJob(
+        # the partitions are evaluated inside the job (a lazy result would run
+        # the tasks after the job has returned and released the context lock)
+        return iter(self.context.runJob(
             self, lambda tc, i: list(i),
-            resultHandler=lambda l: (x for p in l for x in p),
-        )
+            resultHandler=lambda l: [x for p in l for x in p],
+        ))
 
     def top(self, num, key=None):
         """Top N elements in descending order.
